@@ -24,6 +24,7 @@ package witness
 // checked too (beyond the property statement; used for sensitivity runs).
 
 import (
+	"crypto/sha256"
 	"encoding/base64"
 	"encoding/binary"
 	"fmt"
@@ -147,6 +148,19 @@ type c16Req struct {
 	blocked  bool            // an invalid line claims an own key before any genuine line by it
 	validOwn map[string]bool // "ml" / "mirror": genuine own ML-DSA cosignatures on the checkpoint
 	others   int             // number of lines that are not genuine own ML-DSA cosignatures
+	ownLines []string        // the genuine own ML-DSA cosignature lines, as sent
+}
+
+// forged builds a follow-up request that presents a checkpoint nobody ever cosigned (same origin and size, an invented
+// root; the whole tree as subtree, so hash and proof are in order) under the given signature lines: genuine own
+// cosignature lines of another checkpoint transplanted onto it, or malformed lines under an own cosigner name.
+func (r *c16Req) forged(lines []string, how string) *c16Req {
+	bogus := vfref.Hash(sha256.Sum256([]byte(fmt.Sprintf("c16 forged %s %d %s", r.o.name, r.n, how))))
+	f := &c16Req{mirror: r.mirror, o: r.o, n: r.n, cpKind: "bogus", root: bogus, start: 0, end: r.n, rngKind: "whole",
+		rngStr: fmt.Sprintf("0 %d", r.n), hashK: "root", hash: bogus, hashStr: c14B64(bogus), prfKind: "none", sigs: []string{how},
+		defects: []string{"forged-checkpoint"}, blocked: true, validOwn: map[string]bool{}, others: len(lines)}
+	f.body = []byte("subtree " + f.rngStr + "\n" + f.hashStr + "\n\n" + vfref.FormatCheckpointText(r.o.name, r.n, bogus) + "\n" + strings.Join(lines, ""))
+	return f
 }
 
 func (r *c16Req) desc() string {
@@ -495,14 +509,14 @@ func (env *c16Env) gen(t *rapid.T) *c16Req {
 	}
 	var kinds []string
 	if dev["sigs"] {
-		pool := []string{"W", "M", "E", "L", "F", "Fm", "G", "Gm", "O", "Om"}
+		pool := []string{"W", "M", "E", "L", "F", "Fm", "G", "Gm", "O", "Om", "J", "Jm"}
 		nk := rapid.IntRange(0, 4).Draw(t, "nsigs")
 		for i := 0; i < nk; i++ {
 			kinds = append(kinds, pool[rapid.IntRange(0, len(pool)-1).Draw(t, fmt.Sprintf("sig%d", i))])
 		}
 		if one {
 			// exactly one defect: a signature block without a genuine own cosignature
-			kinds = []string{rapid.SampledFrom([]string{"E", "L", "F", "G", "O", "E,L", "F,E", "L,Fm", ""}).Draw(t, "badsigs")}
+			kinds = []string{rapid.SampledFrom([]string{"E", "L", "F", "G", "O", "E,L", "F,E", "L,Fm", "", "J", "L,J", "Jm,E"}).Draw(t, "badsigs")}
 			kinds = strings.Split(kinds[0], ",")
 			if kinds[0] == "" {
 				kinds = nil
@@ -524,6 +538,7 @@ func (env *c16Env) gen(t *rapid.T) *c16Req {
 	mirrorKeys := env.worlds[1].keys // the mirror key exists even if this witness does not use it
 	genuine := map[string]bool{}
 	var lines []string
+	malformed := false
 	for _, k := range kinds {
 		switch k {
 		case "W":
@@ -536,6 +551,7 @@ func (env *c16Env) gen(t *rapid.T) *c16Req {
 			} else {
 				lines = append(lines, sign(keys.sML, noteText))
 				genuine["ml"] = true
+				r.ownLines = append(r.ownLines, lines[len(lines)-1])
 			}
 		case "M":
 			if r.ext {
@@ -548,6 +564,7 @@ func (env *c16Env) gen(t *rapid.T) *c16Req {
 				lines = append(lines, sign(mirrorKeys.sMirror, noteText))
 				if r.mirror {
 					genuine["mirror"] = true
+					r.ownLines = append(r.ownLines, lines[len(lines)-1])
 				} else {
 					r.others++
 				}
@@ -580,6 +597,15 @@ func (env *c16Env) gen(t *rapid.T) *c16Req {
 				r.blocked = true
 			}
 			r.others++
+		case "J", "Jm":
+			// a line under an own cosigner name that is not a signature at all: too short to hold a key hash, empty, or not base64
+			name := keys.name
+			if k == "Jm" {
+				name = mirrorKeys.mirrorName
+			}
+			lines = append(lines, "— "+name+" "+rapid.SampledFrom([]string{"AAAA", "", "!!!!", "AAAAAA==", "AA"}).Draw(t, "junkPayload")+"\n")
+			malformed = true
+			r.others++
 		case "O":
 			lines = append(lines, sign(keys.sML, otherText))
 			if !genuine["ml"] {
@@ -595,6 +621,9 @@ func (env *c16Env) gen(t *rapid.T) *c16Req {
 		}
 	}
 	r.validOwn = genuine
+	if malformed {
+		r.defects = append(r.defects, "malformed-signature-line")
+	}
 	if len(lines) == 0 {
 		r.defects = append(r.defects, "no-signature-lines")
 	} else if len(genuine) == 0 || r.blocked {
@@ -752,7 +781,7 @@ func (env *c16Env) check(t *rapid.T, r *c16Req, resp c14Resp) {
 		}
 	}
 	for _, d := range r.defects {
-		if d != "cosignatures" && d != "origin" && d != "no-signature-lines" {
+		if d != "cosignatures" && d != "origin" && d != "no-signature-lines" && d != "malformed-signature-line" && d != "forged-checkpoint" {
 			fail("signature issued for a request with defect %q", d)
 		}
 	}
@@ -788,6 +817,22 @@ func TestVerifC16SignSubtree(t *testing.T) {
 				rt.Fatalf("C16 violated: the same request was answered %d the first time and %d the second time (request %s)", resp.code, resp2.code, r.desc())
 			}
 			rec.Add("requests-sent-twice", 1)
+		}
+		if resp.code == 200 && len(r.defects) == 0 && len(r.ownLines) > 0 && rapid.IntRange(0, 1).Draw(rt, "transplant") == 0 {
+			// the cosignature lines the witness has just accepted, presented again on a checkpoint that nobody cosigned
+			f := r.forged(r.ownLines, "transplanted-own-lines")
+			env.check(rt, f, wd.post("/sign-subtree", f.body))
+			rec.Add("transplanted-cosignatures", 1)
+		}
+		if rapid.IntRange(0, 9).Draw(rt, "junkOwnLines") == 4 {
+			name := wd.keys.name
+			if r.mirror && rapid.Bool().Draw(rt, "junkMirrorName") {
+				name = wd.keys.mirrorName
+			}
+			junk := "— " + name + " " + rapid.SampledFrom([]string{"AAAA", "", "!!!!", "AA"}).Draw(rt, "junkPayload2") + "\n"
+			f := r.forged([]string{junk}, "junk-own-line")
+			env.check(rt, f, wd.post("/sign-subtree", f.body))
+			rec.Add("forged-checkpoints-with-junk-own-lines", 1)
 		}
 		if wd.lock.histLen() != h0 {
 			rt.Fatalf("C16 violated: sign-subtree wrote to the lock store (request %s)", r.desc())
